@@ -127,9 +127,13 @@ def node_class(node):
     return k
 
 
-def compare(sh, ln, node, rep, ctx):
+def compare(sh, ln, node, rep, ctx, stale=None):
     f = dict(x.split("=") for x in ln.split()[1:])
     exp = expect_num(node)
+    if stale is not None:
+        # entered with a stale errno: the values are asserted as always; errno afterwards may be the documented one or what was there before
+        exp = {k: ((v[0], set(v[1]) | {stale}) if isinstance(v, tuple) else v) for k, v in exp.items()}
+        sh.count("accessor_rounds_entered_with_a_stale_errno")
     cls = node_class(node)
     for acc in ("i32", "i64", "u64"):
         v, e = f[acc].split(",")
@@ -210,19 +214,22 @@ def shard_fn(shard, nshards, seed, tier, exe, ncases):
             else:
                 cmds.append("SET 0 %s %d" % (op[1], op[2]))
             cmds.append("NUM 0")
+        stale = rng.choice([34, 34, 22, 12]) if rng.random() < 0.25 else None
+        if stale is not None:
+            cmds.append("NUMS 0 %d" % stale)
         cmds.append("PUT 0")
         cases.append((cid, cmds))
-        meta[cid] = (toks, node, ops, len(pre))
+        meta[cid] = (toks, node, ops, len(pre), stale)
     results, crashes = core.run_script(exe, cases, tag="c10")
     cmdmap = dict(cases)
     for cr in crashes:
         kind, frame = cr.summary()
-        toks, node, ops, npre = meta[cr.cid]
+        toks, node, ops, npre, _st = meta[cr.cid]
         sh.violation("C10/%s/%s" % (kind, frame), "undefined operation / crash in an accessor: %s in %s on node %s ops %s (died in command #%d: %s)" % (
             kind, frame, toks, ops, len(cr.partial), cmdmap[cr.cid][min(len(cr.partial), len(cmdmap[cr.cid]) - 1)]),
                      {"driver": "jcdrv", "variant": "asan", "script": cmdmap[cr.cid], "stderr": cr.stderr[-2500:]})
     for cid, lines in results.items():
-        toks, node, ops, npre = meta[cid]
+        toks, node, ops, npre, stale = meta[cid]
         rep = {"driver": "jcdrv", "variant": "asan", "script": cmdmap[cid]}
         compare(sh, lines[1 + npre], node, rep, "")
         li = 2 + npre
@@ -244,6 +251,8 @@ def shard_fn(shard, nshards, seed, tier, exe, ncases):
                 sh.violation("C10/mutator-return/%s/%s" % (op[0], k), "%s on a %s node returned %d, expected %d" % (op[:2], k, ret, want), rep)
             compare(sh, lines[li + 1], node, rep, ctx)
             li += 2
+        if stale is not None:
+            compare(sh, lines[li], node, rep, " (getters entered with errno %d)" % stale, stale=stale)
         sh.nontrivial(" ".join(cmdmap[cid]))
         if len(sh.samples) < 2 and ops:
             sh.samples.append({"script": cmdmap[cid], "results": lines[:len(cmdmap[cid])]})
